@@ -250,6 +250,22 @@ def _fit(case):
                       None if (w is None or hist == 1) else tuple(otherw(x, i) for i, x in enumerate(w)))
             g.fit(coords, tuple(L(x, f"d{i}") for i, x in enumerate(data)),
                   None if w is None else tuple(L(x, f"w{i}") for i, x in enumerate(w)))
+        if zlib.crc32(("buffers" + case["op"][:4000]).encode()) % 2 == 0:
+            # the caller goes on using its coordinate buffers after the fit (in place: an origin shift, the next survey read into the same arrays):
+            # the fitted model is the optimum of the problem it was given and keeps predicting it
+            from sklearn.base import clone
+            ce, cn = np.array(es, dtype=float), np.array(ns, dtype=float)
+            g2 = clone(g)
+            A1 = lambda x: np.array(x, dtype=float)  # noqa: E731
+            g2.fit((ce, cn), A1(data[0]) if len(data) == 1 else tuple(A1(x) for x in data),
+                   None if w is None else (A1(w[0]) if len(w) == 1 else tuple(A1(x) for x in w)))
+            q_ = (np.array(es, dtype=float) + 0.125, np.array(ns, dtype=float) - 0.25)
+            before = [np.array(x, dtype=float) for x in np.atleast_2d(g2.predict(q_))]
+            ce += 1000.0
+            cn *= -3.0
+            after = [np.array(x, dtype=float) for x in np.atleast_2d(g2.predict(q_))]
+            if any(not np.array_equal(x, y, equal_nan=True) for x, y in zip(before, after)):
+                raise RuntimeError("the fitted model's predictions follow the caller's coordinate arrays after the fit")
         return {"params": [float(v) for v in g.force_]}
 
 
@@ -329,6 +345,23 @@ def oracle(case, io):
     if C.is_err(io):
         return "fit failed: " + io[1]
     J, d, w, alpha = _system(case)
+    if case["fn"] in ("spline", "vector"):
+        # the problem being solved is the one with the DOCUMENTED design matrix: the Green's functions of the data-to-force offsets, written
+        # out here from their formulas (r = |offset| + mindist; r^2 (ln r - 1); the elastic kernels with the Poisson ratio as given)
+        es_, ns_, _, _, _, force_, nu, md = case["args"]
+        fe_, fn_ = (es_, ns_) if force_ is None else force_
+        de = np.array(es_, dtype=float)[:, None] - np.array(fe_, dtype=float)[None, :]
+        dn = np.array(ns_, dtype=float)[:, None] - np.array(fn_, dtype=float)[None, :]
+        r = np.hypot(de, dn) + md
+        with np.errstate(divide="ignore", invalid="ignore"):
+            if case["fn"] == "spline":
+                Jref = np.where(r == 0, 0.0, r ** 2 * (np.log(np.where(r == 0, 1.0, r)) - 1))
+            else:
+                lnr, o2 = (3 - nu) * np.log(r), (1 + nu) / r ** 2
+                Jref = np.vstack([np.hstack([lnr + o2 * dn ** 2, -o2 * de * dn]), np.hstack([-o2 * de * dn, lnr + o2 * de ** 2])])
+        if np.all(np.isfinite(Jref)) and (Jref.shape != J.shape or not np.allclose(J, Jref, rtol=1e-9, atol=1e-9 * max(1.0, float(np.max(np.abs(Jref)))))):
+            return ("the design matrix is not the documented Green's functions of the data-to-force offsets "
+                    f"(largest departure {float(np.max(np.abs(J - Jref))) if Jref.shape == J.shape else 'shape'})")
     m, n = J.shape
     ws = np.ones(m) if w is None else w
     if m < n and not alpha:
